@@ -289,15 +289,14 @@ theorem not_multi_eq_single : ¬ multi_eq_single_full := by
 /-! ### `query/terms.py`: fuzzy term queries -/
 
 /-- **Fuzzy term query on one segment**: the hits are exactly the documents that contain a
-    non-empty term sharing the prefix and within *plain Levenshtein* distance of the word (the
-    documented distance is `osa`: same recorded defect as `terms_within_single`; the empty term is
-    never matched: recorded finding about `MultiTerm.matcher`).  `lex` is the sorted term list
+    term sharing the prefix and within *plain Levenshtein* distance of the word (the
+    documented distance is `osa`: same recorded defect as `terms_within_single`).  `lex` is the sorted term list
     of the documents. -/
 theorem fuzzy_query (lex : List (List Nat)) (docs : List (List (List Nat))) (w : List Nat) (d p : Nat)
     (hw : Valid w) (hv : ∀ t, t ∈ lex → Valid t) (hs : SortedLex lex)
     (hlex : ∀ t, t ∈ lex ↔ ∃ doc, doc ∈ docs ∧ t ∈ doc) :
     fuzzyDocsSeg lex docs w d p = .ok ((docs.zipIdx.filter fun x => x.1.any fun t =>
-      !t.isEmpty && (sharePrefix p t w && decide (lev t w ≤ d))).map (·.2)) := by
+      (sharePrefix p t w && decide (lev t w ≤ d))).map (·.2)) := by
   unfold fuzzyDocsSeg
   rw [terms_within_single lex w d p hw hv hs]
   simp only [Except.map, fuzzyDocsOf]
@@ -312,13 +311,11 @@ theorem fuzzy_query (lex : List (List Nat)) (docs : List (List (List Nat))) (w :
   · rintro ⟨t, ht, hc⟩
     refine ⟨t, ht, ?_⟩
     simp only [List.contains_iff_mem, List.mem_filter, within] at hc
-    simp only [Bool.and_eq_true]
-    exact ⟨hc.2, by simpa using hc.1.2⟩
+    simpa using hc.2
   · rintro ⟨t, ht, hc⟩
     refine ⟨t, ht, ?_⟩
-    simp only [Bool.and_eq_true] at hc
     simp only [List.contains_iff_mem, List.mem_filter, within]
-    exact ⟨⟨(hlex t).mpr ⟨x.1, hdoc, ht⟩, by simpa using hc.2⟩, hc.1⟩
+    exact ⟨(hlex t).mpr ⟨x.1, hdoc, ht⟩, by simpa using hc⟩
 
 /-- The hypotheses of `fuzzy_query` are satisfiable, and the result is not trivial: of the
     documents `[ab]`, `[ba, b]`, `[]` only the first two contain a term within distance 1 of
@@ -335,14 +332,14 @@ def SegOK (s : List (List Nat) × List (List (List Nat))) : Prop :=
 
 /-- **Fuzzy term query on a multi-segment index** (what `Searcher.search(FuzzyTerm)` observes):
     the union over the segments - the hits are exactly the documents, in global numbering, that
-    contain a non-empty term sharing the prefix and within plain Levenshtein distance.  Same
+    contain a term sharing the prefix and within plain Levenshtein distance.  Same
     deviation from the documented `osa` as `fuzzy_query` (the expansion is done per segment with
     the automaton, also on multi-segment indexes). -/
 theorem fuzzy_query_index (w : List Nat) (d p : Nat) (hw : Valid w) :
     ∀ (segs : List (List (List Nat) × List (List (List Nat)))) (off : Nat), (∀ s, s ∈ segs → SegOK s) →
       fuzzyDocsIndex w d p segs off =
         .ok ((((segs.flatMap (·.2)).zipIdx off).filter fun x => x.1.any fun t =>
-          !t.isEmpty && (sharePrefix p t w && decide (lev t w ≤ d))).map (·.2)) := by
+          (sharePrefix p t w && decide (lev t w ≤ d))).map (·.2)) := by
   intro segs
   induction segs with
   | nil => intro off _; rfl
@@ -357,7 +354,7 @@ theorem fuzzy_query_index (w : List Nat) (d p : Nat) (hw : Valid w) :
       List.map_map]
     congr 2
     exact filter_zipIdx_shift docs off (fun doc => doc.any fun t =>
-      !t.isEmpty && (sharePrefix p t w && decide (lev t w ≤ d)))
+      sharePrefix p t w && decide (lev t w ≤ d))
 
 /-- Two segments: the document `[ab]` of the second segment is hit as number 2; `[ba]` (one
     transposition away) is not. -/
